@@ -434,6 +434,12 @@ func (w *World) forge(ctx context.Context, toks []string) {
 			return
 		}
 		t.SetHash(other.GetHash())
+		if args["claim"] == "nowhere" {
+			// … or an address under which NO block exists: whoever goes and fetches it waits
+			if nd, err := cbornode.WrapObject(map[string]interface{}{"nowhere": name}, mh.SHA2_256, -1); err == nil {
+				t.SetHash(nd.Cid())
+			}
+		}
 		if w.tampered == nil {
 			w.tampered = map[string]ipfslog.Entry{}
 		}
